@@ -271,6 +271,36 @@ class Evaluator:
             if isinstance(a, str) and isinstance(e.op, (ast.Add, ast.Mod)):
                 return Opaque("str", ())
             return Opaque("binop:" + type(e.op).__name__, (_freeze(a), _freeze(b)))
+        if isinstance(e, (ast.ListComp, ast.GeneratorExp)) and all(isinstance(g.target, ast.Name) for g in e.generators):
+            out = []
+
+            def rec(k, env_):
+                if k == len(e.generators):
+                    out.append(self.ev(e.elt, env_))
+                    return
+                g = e.generators[k]
+                it = self.ev(g.iter, env_)
+                if not isinstance(it, (list, tuple, dict)):
+                    raise Unknown(f"comprehension over '{core.norm(core.src(g.iter), 40)}'")
+                for x in it:
+                    env2 = dict(env_)
+                    env2[g.target.id] = x
+                    if all(self.truth(self.ev(c, env2), c) for c in g.ifs):
+                        rec(k + 1, env2)
+
+            rec(0, env)
+            return out
+        if isinstance(e, ast.Call) and isinstance(e.func, ast.Name) and e.func.id in ("any", "all") and e.func.id not in self.hooks and len(e.args) == 1:
+            v = self.ev(e.args[0], env)
+            if isinstance(v, (list, tuple)):
+                return (any if e.func.id == "any" else all)(self.truth(x, e.args[0]) for x in v)
+        if isinstance(e, ast.Call) and isinstance(e.func, ast.Attribute) and e.func.attr == "append" and isinstance(e.func.value, ast.Name) and isinstance(env.get(e.func.value.id), list) and len(e.args) == 1:
+            env[e.func.value.id].append(self.ev(e.args[0], env))
+            return None
+        if isinstance(e, ast.Call) and isinstance(e.func, ast.Name) and e.func.id == "range" and "range" not in self.hooks:
+            a = [self.ev(x, env) for x in e.args]
+            if all(isinstance(x, int) for x in a):
+                return list(range(*a))
         if isinstance(e, ast.Call):
             f = core.src(e.func)
             if f in self.hooks:
